@@ -38,7 +38,7 @@ def record_control(tid: str, tt, seed: int, calls: int, with_history: bool) -> d
         target = [rng.choice([0, 1, 2, 2]) for _ in range(n)]
         if all(x == 2 for x in target):
             target[rng.randrange(n)] = rng.randint(0, 1)
-        e = {"target": target, "strategy": rng.choice(["internal", "all"]), "bound": rng.choice([-1, -1, 0, 1, 2, n]),
+        e = {"target": target, "strategy": rng.choice(["internal", "all", "all"]), "bound": rng.choice([-1, -1, 0, 1, 2, 2, 3, n - 1, n]),
              "forbidden": sorted(rng.sample(range(1, n + 1), rng.choice([0, 0, 1, 2]) if n >= 2 else 0)),
              "sonly": rng.random() < 0.5, "skipff": (not fresh) and rng.random() < 0.3, "fresh": fresh, "raised": False,
              "exc": "", "res": [], "hist": hist, "k": "control"}
